@@ -339,18 +339,20 @@ def fold_listeners(ctx, rep, R2, ab, ac, ana, atk, ara):
 
         def __repr__(self):
             return self.name
-    root = Br('root', nodes=['n0', 'n1'])
+    import collections as _coll
+    root = Br('root', nodes=['n0', 'n1', 'n2'])
     mid = Br('mid', parent=root, origin=root)
     leaf = Br('leaf', parent=mid, origin=root)
     closed = Br('closed', parent=root, origin=root, closed=True)
-    for br in (root, mid, leaf, closed):
+    # (the number of branches already on the tableau and the number of nodes already on the arriving branch vary independently)
+    for br, npre in ((root, 0), (root, 2), (Br('bare-root'), 0), (mid, 2), (leaf, 2), (closed, 2)):
         tab = Tab()
         stat, opens, branches = {}, [], tab.branches
         node_adds = []
-        pre = [Br('x0'), Br('x1')]
+        pre = [Br(f'x{i}') for i in range(npre)]
         branches.extend(pre)
         it = Interp(dict(self=tab, stat=stat, opens=opens, branches=branches, Tableau=Obj('Tableau', StatKey=StatKey, Events=Events),
-                         Emsg=Obj('Emsg', DuplicateValue=lambda *a: 'DuplicateValueError'), deque=lambda it_, maxlen=None: list(it_),
+                         Emsg=Obj('Emsg', DuplicateValue=lambda *a: 'DuplicateValueError'), deque=_coll.deque,
                          EMPTY_SET=frozenset(), branch_listeners='LISTENERS',
                          after_node_add=lambda node, branch: node_adds.append((node, branch))), where='Tableau.__listen_on.add_branch')
         r = it.safe(ab, [br])
@@ -359,7 +361,7 @@ def fold_listeners(ctx, rep, R2, ab, ac, ana, atk, ara):
             probs.append(f'raises {r.text}')
         else:
             rec = stat.get(br)
-            want = {'STEP_ADDED': 7, 'INDEX': 2, 'PARENT': br.parent}
+            want = {'STEP_ADDED': 7, 'INDEX': npre, 'PARENT': br.parent}
             if rec != want:
                 probs.append(f'recorded stat {rec} differs from step/index/parent {want}')
             if (br in opens) != (not br.closed):
@@ -373,9 +375,9 @@ def fold_listeners(ctx, rep, R2, ab, ac, ana, atk, ara):
             exp_adds = [(n, br) for n in br.nodes] if br.parent is None else []
             if node_adds != exp_adds:
                 probs.append(f'pre-existing nodes announced {node_adds}, expected {exp_adds}')
-        rep.instance(R2, ok=not probs, sample=dict(fold='add_branch', branch=br.name), nontrivial=('fold-add_branch', br.name))
+        rep.instance(R2, ok=not probs, sample=dict(fold='add_branch', branch=br.name), nontrivial=('fold-add_branch', br.name, npre))
         for p_ in probs:
-            rep.finding(R2, f'C16.R2/add_branch/fold/{br.name}/{p_[:30]}', m.loc(TAB, ab), 'add_branch', f'branch {br.name} (parent {br.parent}): {p_}')
+            rep.finding(R2, f'C16.R2/add_branch/fold/{br.name}/{p_[:30]}', m.loc(TAB, ab), 'add_branch', f'branch {br.name} (parent {br.parent}, {len(br.nodes)} nodes) added as branch number {npre + 1}: {p_}')
         # duplicate registration is refused without effect
         tab2 = Tab()
         tab2.branches.append(br)
